@@ -210,10 +210,10 @@ pub fn t1_cfg(tier: &str) -> Vec<(String, Cfg)> {
         let mut c3 = Cfg::basic(100, 100, 300);
         c3.writes = [vec![1, 3], vec![3]];
         c3.drops = 2;
-        c3.dups = 1;
+        c3.dups = 0;
         c3.ticks = [2, 1];
         c3.steps = [1, 0];
-        v.push(("T1 mtu100 w[1,3|3] drop2 dup1 tick(2,1) step(1,0)".into(), c3));
+        v.push(("T1 mtu100 w[1,3|3] drop2 tick(2,1) step(1,0)".into(), c3));
         let mut c4 = Cfg::basic(100, 100, 300);
         c4.writes = [vec![3], vec![2]];
         c4.drops = 1;
@@ -259,9 +259,11 @@ pub fn t2_cfgs(tier: &str) -> Vec<(String, Cfg, usize, bool)> {
         // hundreds of segments: a second level of deviations is tens of millions of stored
         // prefixes (the first thorough run of this configuration took 64 GB)
         let many = mtu <= 101 && wa.max(wb) >= 9000;
+        // 25 segments: the third level alone is millions of executions
+        let medium = mtu <= 101 && wa.max(wb) > 1000;
         let d = if tier == "quick" || many {
             1
-        } else if big {
+        } else if big || medium {
             2
         } else {
             3
